@@ -39,8 +39,40 @@ macro_rules! float_passthrough {
                     s.assume(false);
                     return Ok(());
                 }
-                let lit = std::format!("{:e}", v).replace("inf", "1e999");
-                <$t>::try_from(Token::DecimalNumericProgramData(lit.as_bytes()))
+                // every spelling below denotes exactly `v` under correct rounding: the shortest
+                // round-trip literal and two long literals just inside the rounding interval of `v`
+                // (they expose e.g. a detour through a wider float: double rounding)
+                // The solver's value and (for f32) its upper neighbour are both tried: a double-rounding
+                // detour shows only for one mantissa parity.
+                let single = core::mem::size_of::<$t>() == 4;
+                let mut r = Err(scpi::error::ErrorCode::NumericDataError.into());
+                let mut cands = std::vec![v];
+                if single && v.is_finite() && v != 0.0 {
+                    cands.push(<$t>::from_bits(v.to_bits() + 1));
+                }
+                let mut bad = false;
+                for c in cands {
+                    for lit in crate::checks::spellings(c as f64, single) {
+                        let rr = <$t>::try_from(Token::DecimalNumericProgramData(lit.as_bytes()));
+                        std::eprintln!("C08 passthrough<{}>: literal {} (denotes {:e}) -> {:?}", stringify!($t), lit, c, rr);
+                        if !matches!(rr, Ok(x) if x.to_bits() == c.to_bits()) {
+                            bad = true;
+                        }
+                        if c.to_bits() == v.to_bits() || bad {
+                            r = rr;
+                        }
+                        if bad {
+                            break;
+                        }
+                    }
+                    if bad {
+                        break;
+                    }
+                }
+                if bad {
+                    return Err("C08: the float conversion does not return exactly what the literal denotes");
+                }
+                r
             };
             crate::note!("C08 passthrough<{}>: parser result mode {} value {:e} -> {:?}", stringify!($t), mode, v, r);
             witness!(mode == 0 && v.is_infinite(), "passthrough: infinity for an out-of-range magnitude");
